@@ -656,6 +656,12 @@ namespace bloch::update {
 
         const auto currentSem = parseSemVer(currentVersion);
         const auto latestSem = parseSemVer(*latest);
+        if (!currentSem.valid || !latestSem.valid) {
+            std::cerr << "Unable to compare the installed version (" << currentVersion
+                      << ") with the latest release (" << *latest << "); not updating."
+                      << std::endl;
+            return false;
+        }
         if (currentSem.valid && latestSem.valid && latestSem.major > currentSem.major) {
             std::cout << "A major Bloch update is available (" << currentVersion << " -> "
                       << *latest << "). Review changes: " << kChangelogUrl
